@@ -42,7 +42,8 @@ KINDS = ["dangling", "loop", "fifo", "socket", "dotdot", "backslash", "stat-ENOE
          "cap-fifo", "cap-socket", "cap-dangling", "zipcache-fifo", "zipcache-socket", "zip-emptylink",
          "zip-badlinks", "gmap-vanish", "gmap-stat-EACCES", "gmap-stat-ENOENT",
          "gmapname-socket", "gmapname-fifo", "gmapname-dir", "gmapname-dangling", "gmapname-loop",
-         "zip-damaged", "zip-oddmembers", "pyg-broken", "pyg-nomain", "pyg-raises", "tal-notype", "gmap-badport"]
+         "zip-damaged", "zip-oddmembers", "pyg-broken", "pyg-nomain", "pyg-raises", "tal-notype", "gmap-badport",
+         "dot-dotdot", "dot-backslash"]
 # kinds that need the ZIP handler in the chain / a gophermap in the directory
 ZIP_KINDS = ("zipcache-fifo", "zipcache-socket", "zip-emptylink", "zip-badlinks", "zip-damaged", "zip-oddmembers",
              "pyg-broken", "pyg-nomain", "pyg-raises", "tal-notype")
@@ -204,6 +205,11 @@ def _bad_entry(rng, kind, pre, i):
             ent.append({"p": pre + name, "k": "symlink", "to": "nowhere-" + base})
         else:
             ent.append({"p": pre + name, "k": "symlink", "to": name})
+    elif kind in ("dot-dotdot", "dot-backslash"):
+        # a regular dot-file (UMN reads those as link files) whose own name the selector filter refuses
+        name = {"dot-dotdot": rng.choice(["..draft-", ".notes..", ".a.."]),
+                "dot-backslash": rng.choice([".win.\\", ".x\\\\"])}[kind] + base
+        ent.append({"p": pre + name, "k": "file", "d": rng.choice(["", "# a comment\n", "# only comments\n#\n"])})
     elif kind == "dot-loop":
         name = "." + base
         ent.append({"p": pre + name, "k": "symlink", "to": name})
@@ -386,7 +392,7 @@ def execute(sc, tape=None):
             counters = common.run_counters(run)
             if inconclusive:
                 counters["unparsed_success_no_verdict"] = 1
-        special = any(k.startswith(("cache-", "cap-", "zipcache-", "zip-", "gmapname-", "pyg-", "tal-")) or k in ("dot-loop", "dangling", "loop", "fifo", "socket", "dotdot", "backslash",
+        special = any(k.startswith(("cache-", "cap-", "zipcache-", "zip-", "gmapname-", "pyg-", "tal-", "dot-")) or k in ("dot-loop", "dangling", "loop", "fifo", "socket", "dotdot", "backslash",
                             "dot-dangling", "dot-socket", "dot-fifo", "sidecar-socket",
                             "sidecar-dangling", "sidecar-fifo") for k in sc["kinds"])
         if special and counters.get("fs_listdir", 0):
